@@ -342,7 +342,8 @@ def canon_impl(impl, case=None):
             if esc is None and o is not None and c.get("error") is not None:
                 # run_cell reports an exception that left a hook as the cell's error
                 injected = {REAL_CLASS.get(f[1], f[1]) for f in o.get("faults", [])} | ({case.get("bad_exc")} if case else set()) | {"StrFailure"}
-                if c["error"] in injected and c["error"] != "NameError":
+                # (an injected NameError is told from the cell's own NameError by its message)
+                if c["error"] in injected and (c["error"] != "NameError" or c.get("error_injected")):
                     esc = c["error"]
             co = {"path": c["pf_calls"] > 0, "escaped": esc}
             if c["act"] in ("run", "runfile", "prun"):
